@@ -198,7 +198,7 @@ class Prefixes(object):
                 if res[0] != 'ok' or res[1] != exp:
                     vs.append(('C11|prefix|complete-prefix-wrong|%s' % res[0],
                                'prefix %r holds %d complete module(s) but parse() gave %r' % (prefix, complete, res)))
-        return (res[0], res[1] if res[0] == 'err' else len(res[1]) if res[0] == 'ok' else res[1]), vs, 1
+        return (res[0], repr(res[1:])), vs, 1
 
 
 def mutations(tokens, alpha):
@@ -285,8 +285,7 @@ class TokenMutations(object):
                     vs.append(('%s|lineno-names-different-token' % sig,
                                'tokens %r\nlayout A %r -> %r (token index %r)\nlayout B %r -> %r, expected line in %r' % (
                                    toks, ta, ra, K, tb, rb, sorted(allowed))))
-        out = (ra[0], ra[1] if ra[0] == 'err' else None)
-        return out, vs, 2
+        return (ra[0], repr(ra[1:]), repr(rb[1:])), vs, 2
 
 
 class Noise(object):
@@ -329,7 +328,7 @@ class Noise(object):
                 if res[0] != 'err' or res[2] != want:
                     vs.append(('%s|illegal-character-not-located' % sig,
                                'text %r: noise at line %d, got %r' % (noisy, want, res)))
-        return (res[0], res[1] if res[0] == 'err' else None), vs, 1
+        return (res[0], repr(res[1:])), vs, 1
 
 
 class Lexical(object):
